@@ -19,7 +19,8 @@ RULE = ("Metamorphic relation. Hypothesis draws a structure type (Bloom with ope
         "count-min), one geometry (est 1..60 / fpr list, or width 1..8 x depth 1..5) and hash strategy shared by both operands, a pool "
         "of 2-10 keys and two streams of <= 12 operations (adds; for counting Bloom and count-min also legitimate removes resolved "
         "within their own stream). Three structures are built: A from stream A, B from stream B, S from A's stream followed by B's. "
-        "Non-trivial = both streams non-empty and at least one cell touched by both. Distinct by (config, resolved streams).")
+        "In half of the Bloom / counting cases a SECOND round follows on the same operand objects: optional clear() of either operand, more "
+        "additions, and the union is compared again with a freshly built structure. Non-trivial = both streams non-empty and at least one cell touched by both. Distinct by (config, resolved streams).")
 ASSUMPTIONS = ["operands are unsaturated (amounts <= 300)", "a Bloom union whose bits are all set is compared on the bit array only"]
 MANIFEST = {
     "technique": "metamorphic property testing: single stream == union/join of two streams, compared on the raw cell arrays",
@@ -40,10 +41,14 @@ def strategy(tier):
     bloom = st.fixed_dictionaries({
         "t": st.just("bloom"), "geom": geom, "hash": gen.hash_name_st(), "pool": gen.pool_st(2, 10),
         "ka": st.sampled_from(["bloom", "ondisk"]), "kb": st.sampled_from(["bloom", "ondisk"]),
-        "sa": so.stream_st(False), "sb": so.stream_st(False), "sx": so.stream_st(False, max_len=4), "chain": st.sampled_from([0, 0, 1, 2])})
+        "sa": so.stream_st(False), "sb": so.stream_st(False), "sx": so.stream_st(False, max_len=4), "chain": st.sampled_from([0, 0, 1, 2]),
+        "p2": st.one_of(st.none(), st.fixed_dictionaries({"ca": st.booleans(), "cb": st.booleans(), "sa2": so.stream_st(False, max_len=5),
+                                                           "sb2": so.stream_st(False, max_len=5)}))})
     cb = st.fixed_dictionaries({
         "t": st.just("cbloom"), "geom": geom, "hash": gen.hash_name_st(), "pool": gen.pool_st(2, 10),
-        "sa": so.stream_st(True), "sb": so.stream_st(True), "sx": so.stream_st(True, max_len=4), "chain": st.sampled_from([0, 0, 1, 2])})
+        "sa": so.stream_st(True), "sb": so.stream_st(True), "sx": so.stream_st(True, max_len=4), "chain": st.sampled_from([0, 0, 1, 2]),
+        "p2": st.one_of(st.none(), st.fixed_dictionaries({"ca": st.booleans(), "cb": st.booleans(), "sa2": so.stream_st(True, max_len=5),
+                                                           "sb2": so.stream_st(True, max_len=5)}))})
     cms = st.fixed_dictionaries({
         "t": st.just("cms"), "w": st.one_of(st.integers(1, 3), st.integers(1, 8)), "d": st.integers(1, 5),
         "hash": gen.hash_name_st(), "pool": gen.pool_st(2, 10), "qt": st.sampled_from(["min", "mean", "mean-min"]),
@@ -120,6 +125,32 @@ def run_case(case, ctx):
             ctx.feat("%s_%s_%s" % (t, ka, kb))
             ctx.feat("m%%8=%d" % (A.number_bits % 8))
             ctx.nt(bool(ra) and bool(rb) and both)
+            p2 = case.get("p2")
+            if p2:
+                # second round on the SAME operand objects: optionally clear() one or both, feed more, unite again - the result must
+                # again equal a freshly built single-stream structure (anything an operand cached during the first union is stale now)
+                cur_a = [] if p2["ca"] else list(ra) + (rx if chain == 1 else [])
+                cur_b = [] if p2["cb"] else list(rb) + (rx if chain == 2 else [])
+                if p2["ca"]:
+                    ctx.call(noexc, A.clear)
+                if p2["cb"]:
+                    ctx.call(noexc, B.clear)
+                ra2, _ = so.resolve(p2["sa2"], len(pool))
+                rb2, _ = so.resolve(p2["sb2"], len(pool))
+                ra2 = [[k, abs(n)] for k, n in ra2]
+                rb2 = [[k, abs(n)] for k, n in rb2]
+                so.feed(A, ka, pool, ra2)
+                so.feed(B, kb, pool, rb2)
+                S2 = so.make_bloom(ctx, kind_u, est, fpr, case["hash"], "s2")
+                so.feed(S2, kind_u, pool, cur_a + ra2 + cur_b + rb2)
+                U2 = ctx.call(noexc, A.union, B)
+                ctx.check(noexc, U2 is not None, "second union returned None")
+                c2, cs2 = so.cells(U2, kind_u), so.cells(S2, kind_u)
+                ctx.check(name, c2 == cs2, lambda: f"second union (after clear a={p2['ca']} b={p2['cb']} and more additions) differs from the "
+                                                   f"single-stream structure: {c2.hex()} != {cs2.hex()}")
+                U3 = ctx.call(noexc, B.union, A)
+                ctx.check(name, U3 is not None and so.cells(U3, kind_u) == cs2, "second union with swapped operands differs")
+                ctx.feat("second_round_%s%s" % ("clearA" if p2["ca"] else "", "clearB" if p2["cb"] else ""))
         else:
             A, B, S = (so.make_cms(case["w"], case["d"], case["hash"]) for _ in range(3))
             qt = case["qt"] if case["w"] >= 2 else "min"  # mean-min divides by (width - 1): width 1 is outside its domain
